@@ -107,6 +107,11 @@ class Interp:
                 for t in d.targets:
                     self.assign(t, val, env)
                 v = env.vars[name]
+                # functions registered on this object by decorators (@evaluate.register_action(...)) are part of its state
+                for fd in mod.tree.body:
+                    if isinstance(fd, ast.FunctionDef) and fd.name not in env.vars:
+                        if any(ast.unparse(dc).startswith(name + ".") for dc in fd.decorator_list):
+                            self.get_global(modname, fd.name)
             elif isinstance(d, ast.AnnAssign):
                 v = self.eval(d.value, env)
             else:  # pragma: no cover
@@ -164,10 +169,6 @@ class Interp:
                 f.marks.add(name)
             return f
         if name.startswith("functools.wraps("):
-            return f
-        if name.startswith("evaluate.register_action(") or name.startswith("value_evaluate.register_action("):
-            if isinstance(f, FuncV):
-                f.marks.add("action:" + name)
             return f
         d = self.eval(dec, env)
         return self.call(d, [f], {})
